@@ -1,9 +1,12 @@
+import BadgerModel.Driver.Iter
 import BadgerModel.Driver.Loop
-/-! `bmd_iter <engine>`: line-protocol driver (see CONVENTIONS.md). -/
+/-! `bmd_iter <engine>`: line-protocol driver (see CONVENTIONS.md). Engines: `merge`, `skl`. -/
 open Badger.Driver
 
 def main (args : List String) : IO UInt32 := do
   let stdin ← IO.getStdin
   let stdout ← IO.getStdout
   match args with
-  | _ => IO.eprintln "usage: bmd_iter <engine>"; return 2
+  | ["merge"] => statefulLoopU stdin stdout mergeStep {}; return 0
+  | ["skl"] => statefulLoop stdin stdout sklStep {}; return 0
+  | _ => IO.eprintln "usage: bmd_iter <merge|skl>"; return 2
